@@ -144,6 +144,10 @@ func (entriesArea) Run(c *core.Ctx) error {
 			c.NonTrivial()
 		}
 		c.Guard(op, func() string { return runEntries(c, lens, rng.Intn(3) == 0) })
+		// round 12: the write side (buffer / flush / sync) of the same layer, see bufwriter.go
+		bops := bwOps(rng, i%4)
+		c.Branch(fmt.Sprintf("bw-shape:%d", i%4))
+		c.Guard("bw "+strings.Join(bops, ","), func() string { return runBW(c, bops) })
 	}
 	return nil
 }
